@@ -139,3 +139,15 @@ func specPlain4(p *packets.FrameParser) bool {
 //@ ensures[C01.recv.fresh]  ret0 != nil ==> fresh(ret0)
 //@ ensures[C09.recv.state]  len(t.sentProbes) == old(len(t.sentProbes)) && forall(k, 0, len(t.sentProbes), t.sentProbes[k] == old(t.sentProbes[k]))
 //@ modifies t.mu, packets.FrameParser.IP4, packets.FrameParser.IP6, packets.FrameParser.TCP, packets.FrameParser.ICMP4, packets.FrameParser.ICMP6, packets.FrameParser.Payload, packets.FrameParser.Layers, gopacket.DecodingLayerParser, elems(t.buffer), ghost clock, ghost ioFail
+
+// C11 isolation (strict mode, as the runner configures TCP SYN): a packet genuine for two runs forces them to share
+// target and local address:port — the local port is reserved per run, so two runs never do.
+func specIsolated(a, b *tcpDriver, p *packets.FrameParser, ta, tb uint8) bool {
+	ga := specGenuineDirect(a, p, ta) || specFlowTE(a, p)
+	gb := specGenuineDirect(b, p, tb) || specFlowTE(b, p)
+	return !(ga && gb) || a.config.LoosenICMPSrc || b.config.LoosenICMPSrc || (specTarget(a) == specTarget(b) && specLocal(a) == specLocal(b))
+}
+
+//@ func specIsolated
+//@ requires[pre.nonnil]   a != nil && b != nil && p != nil && a.config != nil && b.config != nil
+//@ ensures[C11.iso.tcp]   ret0
